@@ -304,6 +304,31 @@ func GenC02(rng *rand.Rand, thorough bool, emit func(*Sx)) {
 			}
 		}
 	}
+	// A backend that PANICS after reading a few octets of a message whose rest (bait lines, end marker, more
+	// commands) is already in the server's buffer: whatever the server answers, the connection is over - no
+	// octet of the unread message is executed as a command.
+	for mi, m := range modes {
+		for _, stop := range []int64{0, 3, 30} {
+			for seg := 0; seg < 2; seg++ {
+				cfg := DefaultCfg()
+				cfg.LMTP, cfg.LMTPSession = m.lmtp, m.sess
+				f := newF(cfg)
+				f.known = false
+				f.hello()
+				f.raw("MAIL FROM:<s@ok>\r\nRCPT TO:<r0@ok>\r\nDATA\r\n")
+				p := DefaultPlan()
+				p.Stop, p.Panic = stop, true
+				p.Sizes = []int{1}
+				f.script.Data = []DataPlan{p}
+				f.raw("first line of the message\r\nsecond line\r\nRSET\r\nMAIL FROM:<bait@evil>\r\nRCPT TO:<bait@evil>\r\nDATA\r\nsmuggled\r\n.\r\n")
+				f.raw("MAIL FROM:<after@ok>\r\nQUIT\r\n")
+				f.add(L(A("must-not-mail"), XS("bait@evil")))
+				f.add(L(A("must-not-mail"), XS("after@ok")))
+				_ = mi
+				emit(RunConv(f.caseOf("C02", segStream(rng, f.out, f.cuts, seg, rawEOF))))
+			}
+		}
+	}
 	// An unread message with a line longer than the line limit, segmented so that the over-long paragraph is a
 	// raw read of its own between "...CRLF" and ".CRLF<bait commands>": the drain of the rest of the message
 	// meets the over-long line.  Whatever the server then does (it closes), it has not seen CRLF.CRLF: the bait
